@@ -45,16 +45,25 @@ theorem untouched_observable (now : Int) (c c' : Coll) (h : Untouched now c c') 
     · exact .inl rfl
     · exact .inr ⟨c1, h1, rfl⟩
 
+theorem projAcceptable_of_projOk {proj : Val} (h : findAndModify.projOk proj = .ok ()) :
+    projAcceptable proj = true := by
+  unfold findAndModify.projOk at h
+  unfold projAcceptable
+  cases hc : copyOnlyFields (.doc []) proj with
+  | ok _ => rfl
+  | error e => rw [hc] at h; cases h
+
 /-- the `Near` form of `fam_failed_partial`: no hypothesis on the collection -/
 theorem fam_failed_near (cfg : Cfg) (now : Int) (c : Coll) (op : Val) (hop : famOp op = true)
     (he : (stepX cfg now c op).2.isErr = true) :
     Near now c (stepX cfg now c op).1 ∨
-    (famAfter op = true ∧ (stepX cfg now c (famBefore op)).2.isErr = false ∧
+    (famAfter op = true ∧ projAcceptable (famProj op) = true ∧
+      (stepX cfg now c (famBefore op)).2.isErr = false ∧
       Near now (stepX cfg now c (famBefore op)).1 (stepX cfg now c op).1) := by
   unfold famOp at hop
   split at hop
   · rename_i f u proj sortV up after
-    simp only [famAfter, famBefore]
+    simp only [famAfter, famBefore, famProj]
     rw [stepX_fau] at he ⊢
     rw [stepX_fau]
     cases hv : validateUpdate u with
@@ -62,9 +71,12 @@ theorem fam_failed_near (cfg : Cfg) (now : Int) (c : Coll) (op : Val) (hop : fam
     | ok x =>
       cases x
       rw [hv] at he
-      exact famStep_fail cfg now c f proj (some u) sortV (boolOf up) (boolOf after) he
+      rcases famStep_fail cfg now c f proj (some u) sortV (boolOf up) (boolOf after) he with
+        h | ⟨h1, h2, h3⟩
+      · exact .inl h
+      · exact .inr ⟨h1, projAcceptable_of_projOk h2, h3⟩
   · rename_i f u proj sortV up after
-    simp only [famAfter, famBefore]
+    simp only [famAfter, famBefore, famProj]
     rw [stepX_far] at he ⊢
     rw [stepX_far]
     cases hv : validateReplace u with
@@ -72,7 +84,10 @@ theorem fam_failed_near (cfg : Cfg) (now : Int) (c : Coll) (op : Val) (hop : fam
     | ok x =>
       cases x
       rw [hv] at he
-      exact famStep_fail cfg now c f proj (some u) sortV (boolOf up) (boolOf after) he
+      rcases famStep_fail cfg now c f proj (some u) sortV (boolOf up) (boolOf after) he with
+        h | ⟨h1, h2, h3⟩
+      · exact .inl h
+      · exact .inr ⟨h1, projAcceptable_of_projOk h2, h3⟩
   · rename_i f proj sortV
     rw [stepX_fad] at he ⊢
     rcases famStep_fail cfg now c f proj none sortV false false he with h | ⟨h, _⟩
@@ -83,11 +98,12 @@ theorem fam_failed_near (cfg : Cfg) (now : Int) (c : Coll) (op : Val) (hop : fam
 theorem fam_failed_partial (cfg : Cfg) (now : Int) (c : Coll) (op : Val) (hr : c.Recorded)
     (hop : famOp op = true) (he : (stepX cfg now c op).2.isErr = true) :
     Untouched now c (stepX cfg now c op).1 ∨
-    (famAfter op = true ∧ (stepX cfg now c (famBefore op)).2.isErr = false ∧
+    (famAfter op = true ∧ projAcceptable (famProj op) = true ∧
+      (stepX cfg now c (famBefore op)).2.isErr = false ∧
       Untouched now (stepX cfg now c (famBefore op)).1 (stepX cfg now c op).1) := by
-  rcases fam_failed_near cfg now c op hop he with h | ⟨h1, h2, h3⟩
+  rcases fam_failed_near cfg now c op hop he with h | ⟨h1, hp, h2, h3⟩
   · exact .inl (near_untouched now c _ hr h)
-  · exact .inr ⟨h1, h2, near_untouched now _ _
+  · exact .inr ⟨h1, hp, h2, near_untouched now _ _
       (MongoModel.Proofs.Recorded.recorded_stepX cfg now c _ hr) h3⟩
 
 theorem fam_failed_noop (cfg : Cfg) (now : Int) (c : Coll) (op : Val) (hr : c.Recorded)
